@@ -650,6 +650,40 @@ pub fn run(run: &mut Run) {
     });
     let n = run.budget(60_000, 3_000_000);
     run.prop(&Mutations, strat, n);
+    // (c3) frames of any type whose body is dense in text structure: runs of codepage markers (one switch every two bytes, up to
+    // 500 of them), escaped and lone carets, double-byte lead bytes, NULs - repeated to fill frames of every length up to the
+    // mode's limit; followed by a valid TINY
+    let token = prop_oneof![
+        6 => prop::sample::select(b"LGCETBJSKH8".to_vec()).prop_map(|l| vec![b'^', l]),
+        1 => Just(vec![b'^', b'^']),
+        1 => Just(vec![b'^']),
+        2 => (0x81u8..=0xFE).prop_map(|b| vec![b]),
+        2 => (0x20u8..0x7F).prop_map(|b| vec![b]),
+        1 => Just(vec![0u8]),
+        1 => prop::sample::select(b"LGCETBJSKH8".to_vec()).prop_map(|l| vec![b'^', l, 0xE9]),
+    ];
+    let strat = (any::<bool>(), 1u8..=70, any::<[u8; 2]>(), 0usize..12, proptest::collection::vec(token, 1..5), 1usize..520).prop_map(|(compressed, ty, hdr, prefix, tokens, repeat)| {
+        let limit = if compressed { 1020 } else { 252 };
+        let mut body: Vec<u8> = vec![0; prefix];
+        'fill: for _ in 0..repeat {
+            for t in &tokens {
+                if 4 + body.len() + t.len() > limit {
+                    break 'fill;
+                }
+                body.extend_from_slice(t);
+            }
+        }
+        while (4 + body.len()) % 4 != 0 {
+            body.push(0);
+        }
+        let len = 4 + body.len();
+        let mut buf = vec![if compressed { (len / 4) as u8 } else { len as u8 }, ty, hdr[0], hdr[1]];
+        buf.extend_from_slice(&body);
+        buf.extend_from_slice(&[if compressed { 1 } else { 4 }, 3, 9, 3]);
+        BufCase { compressed, buf }
+    });
+    let n = run.budget(100_000, 5_000_000);
+    run.prop(&Mutations, strat, n);
     // (f) receive loop over concatenations of mutated frames and random tails
     let strat = (proptest::collection::vec(mutation_strategy(), 1..8), proptest::collection::vec(any::<u8>(), 0..40)).prop_map(|(parts, tail)| {
         let compressed = parts[0].compressed;
